@@ -484,6 +484,11 @@ class ValueWrapper(Term):
             return "null"
         return str(value)
 
+    @builder
+    def replace_table(self, current_table: Optional["Table"], new_table: Optional["Table"]) -> "ValueWrapper":
+        if isinstance(self.value, Term):
+            self.value = self.value.replace_table(current_table, new_table)
+
     def _get_param_data(self, parameter: Parameter, **kwargs) -> Tuple[str, str]:
         param_sql = parameter.get_sql(**kwargs)
         param_key = parameter.get_param_key(placeholder=param_sql)
@@ -992,6 +997,10 @@ class ExistsCriterion(Criterion):
         super(ExistsCriterion, self).__init__(alias)
         self.container = container
         self._is_negated = False
+
+    @builder
+    def replace_table(self, current_table: Optional["Table"], new_table: Optional["Table"]) -> "ExistsCriterion":
+        self.container = self.container.replace_table(current_table, new_table)
 
     def get_sql(self, **kwargs):
         # FIXME escape
